@@ -234,7 +234,17 @@ def cfCase : P String := do
   endOfLine
   let m0 : SM := StateModel.new cfg
   match collectFeaturesQuery ofBitsF tr ac q with
-  | .error e => pure ("err " ++ e.name)
+  | .error e =>
+    -- several offending entries of different kinds: which one is reported depends on `HashMap` order
+    let modelFeatures := HMap.ofList (tr ++ ac)
+    let user := match queryStateFeatures ofBitsF q with
+      | .ok (some fs) => fs
+      | _ => []
+    let unk := user.any (fun p => (HMap.get modelFeatures p.1).isNone)
+    let fty := user.any (fun p => match HMap.get modelFeatures p.1 with
+      | some ex => ex.featureType != p.2.featureType
+      | none => false)
+    pure (if unk && fty then "err ftype|unk" else "err " ++ e.name)
   | .ok fs =>
     let nModel := (HMap.ofList (tr ++ ac)).length
     let fS := fun (p : String × SF) => s!"{p.1}:{featS p.2}"
